@@ -46,7 +46,8 @@ class Population:
         if self.problem.maximize:
             # argsort puts NaN last, which would rank individuals with an undefined fitness as the best ones here.
             keys = np.where(np.isnan(self.fitnesses), -np.inf, self.fitnesses)
-            topk_indices = np.argsort(keys)[-k:]
+            # [-k:] would return everything for k == 0 (e.g. k_elites=0), where the minimising branch returns nothing.
+            topk_indices = np.argsort(keys)[max(self.size - k, 0) :]
         else:
             topk_indices = np.argsort(self.fitnesses)[:k]
         return Population(self.genomes[topk_indices], self.fitnesses[topk_indices], self.problem)
